@@ -10,7 +10,7 @@ from ..spec import to_statechart
 
 PROP = 'C18'
 LEVEL = 'fault_enumeration'
-BUDGET = {'quick': 1100, 'thorough': 12000}
+BUDGET = {'quick': 2400, 'thorough': 16000}
 RULE = ('cases = well-formed chart instrumented with data-only probes (contracts whose conditions '
         'read __old__, history states, delayed internal and external events, after/idle guards) + '
         'history of 8-20 ops. A control run gives the reference signature; for macro-step '
